@@ -1,28 +1,78 @@
 ---- MODULE MC_TTXDump ----
 (* Exhaustive check of the dump-layout predicate against a reference dumper written as TLA+
-   operators, over the whole option lattice: 3 tags (one glyf), selections all / only / skip. *)
+   operators.
+   InitLattice: the whole option lattice: 3 tags (one glyf), selections all / only / skip, two glyphs
+                whose names differ in case only ("a", "A").
+   InitNames:   splitGlyphs dumps of every ordered pair of distinct glyph names of up to 3 symbols
+                over {a A _ * ?} (case variants, characters illegal in file names, names that
+                sanitise to the same string, names clipped to the same string: MaxLen is scaled
+                down to 9 with a 2 + 2 character prefix / suffix).
+   The reference dumper names the per-glyph files with the user-name-to-file-name machine of
+   Filenames.tla, handing it the lower-cased names given out so far, and writes them to a
+   case-insensitive file system (last writer wins).  RefOK: its dumps satisfy WellFormed.
+   MC_TTXDump_neg.cfg (Buggy = TRUE): the dumper records the names as written, not lower-cased;
+   RefOK must then be VIOLATED - the predicate notices the overwritten per-glyph file.          *)
 EXTENDS TTXDump
-VARIABLES split, splitGlyphs, only, skip, present
+CONSTANT Buggy
+VARIABLES split, splitGlyphs, only, skip, present, gnames
+FN == INSTANCE Filenames WITH MaxLen <- 9, CounterWidth <- 2, CounterLimit <- 50
+CX == [illegal |-> {42, 63}, reserved |-> {<<99, 111, 110>>}, lc |-> <<>>]
+Prefix == <<100, 46>>
+Suffix == <<46, 120>>
 All == <<"GlyphOrder", "head", "glyf">>
-Glyphs == <<"a", "B">>
 Sub == {<<>>, <<"head">>, <<"glyf">>, <<"head", "glyf">>, <<"glyf", "head">>, <<"kern">>}
-Init == split \in BOOLEAN /\ splitGlyphs \in BOOLEAN /\ only \in Sub /\ skip \in Sub /\ present \in {{"GlyphOrder", "head", "glyf"}, {"GlyphOrder", "head"}}
-Next == UNCHANGED <<split, splitGlyphs, only, skip, present>>
+Symbols == {97, 65, 95, 42, 63}
+GNames == UNION {[1..k -> Symbols] : k \in 1..3}
+InitLattice == split \in BOOLEAN /\ splitGlyphs \in BOOLEAN /\ only \in Sub /\ skip \in Sub
+               /\ present \in {{"GlyphOrder", "head", "glyf"}, {"GlyphOrder", "head"}} /\ gnames = << <<97>>, <<65>> >>
+InitNames == /\ split = FALSE /\ splitGlyphs = TRUE /\ only = <<>> /\ skip = <<>> /\ present = {"GlyphOrder", "head", "glyf"}
+             /\ \E a \in GNames : gnames = <<a>>
+Init == InitLattice \/ InitNames
+(* the second glyph name is chosen in a step, so that TLC's workers share the pairs *)
+Next == /\ Len(gnames) = 1
+        /\ \E b \in GNames \ {gnames[1]} : gnames' = Append(gnames, b)
+        /\ UNCHANGED <<split, splitGlyphs, only, skip, present>>
 Req == Requested(All, only, skip)
+(* per-glyph file names, glyph by glyph, as table__g_l_y_f.toXML hands them out *)
+RECURSIVE Assign(_, _, _)
+Assign(i, files, existing) ==
+  IF i > Len(gnames) THEN files
+  ELSE LET fn == FN!ToFileName(CX, gnames[i], existing, Prefix, Suffix)
+       IN Assign(i + 1, Append(files, fn), existing \cup {IF Buggy THEN fn ELSE FN!LowerS(CX, fn)})
+Files == Assign(1, <<>>, {})
+(* what a case-insensitive file system holds under a name after all glyph files were written *)
+Holds(fl, f) == LET S == {i \in 1..Len(fl) : Fold(fl[i]) = Fold(f)} IN <<CHOOSE i \in S : \A j \in S : j <= i>>
 RefDump ==
   LET want == SelectSeq(Req, LAMBDA t : t \in present)
       sp == split \/ splitGlyphs
+      sg == splitGlyphs /\ "glyf" \in Range(want)
+      n == Len(gnames)
+      fl == IF sg THEN Files ELSE <<>>
   IN [main |-> [i \in 1..Len(want) |-> [tag |-> want[i], src |-> IF sp THEN "f." \o want[i] ELSE ""]],
       files |-> IF sp THEN [i \in 1..Len(want) |-> [name |-> "f." \o want[i], tags |-> <<want[i]>>]] ELSE <<>>,
-      glyfRefs |-> IF splitGlyphs /\ "glyf" \in Range(want) THEN [i \in 1..Len(Glyphs) |-> "g." \o Glyphs[i]] ELSE <<>>,
-      numGlyphFiles |-> IF splitGlyphs /\ "glyf" \in Range(want) THEN Len(Glyphs) ELSE 0,
-      numInlineGlyphs |-> IF splitGlyphs /\ "glyf" \in Range(want) THEN 0 ELSE Len(Glyphs),
-      numGlyphs |-> Len(Glyphs)]
+      glyfRefs |-> fl,
+      numGlyphFiles |-> IF sg THEN Cardinality({Fold(fl[i]) : i \in 1..n}) ELSE 0,
+      numInlineGlyphs |-> IF sg THEN 0 ELSE n,
+      numGlyphs |-> n,
+      malformed |-> FALSE,
+      glyphOrder |-> IF sg THEN [i \in 1..n |-> i] ELSE <<>>,
+      glyphEntries |-> IF sg THEN [i \in 1..n |-> [file |-> fl[i], holds |-> Holds(fl, fl[i])]] ELSE <<>>]
 RefOK == WellFormed(RefDump, Req, split, splitGlyphs, present) = "ok"
-(* sensitivity of the predicate: dropping a file or an entry is noticed *)
+(* sensitivity of the predicate: dropping a file or an entry is noticed; so is an include whose file
+   holds another glyph, a missing per-glyph file, and two includes that differ in case only *)
 DropNoticed == LET d == RefDump IN
    (Len(d.files) > 0 => WellFormed([d EXCEPT !.files = Tail(@)], Req, split, splitGlyphs, present) # "ok")
    /\ (Len(d.main) > 0 => WellFormed([d EXCEPT !.main = Tail(@)], Req, split, splitGlyphs, present) # "ok")
+   /\ WellFormed([d EXCEPT !.malformed = TRUE], Req, split, splitGlyphs, present) # "ok"
+GlyphFaultsNoticed == LET d == RefDump IN Len(d.glyphEntries) > 1 =>
+   /\ WellFormed([d EXCEPT !.glyphEntries[1].holds = d.glyphEntries[2].holds], Req, split, splitGlyphs, present) = "dump:per-glyph-include-does-not-hold-exactly-its-glyph"
+   /\ WellFormed([d EXCEPT !.glyphEntries[1].holds = <<>>], Req, split, splitGlyphs, present) = "dump:per-glyph-include-does-not-hold-exactly-its-glyph"
+   /\ WellFormed([d EXCEPT !.glyphEntries[2].file = [i \in 1..Len(d.glyphEntries[1].file) |-> IF d.glyphEntries[1].file[i] \in 97..122 THEN d.glyphEntries[1].file[i] - 32 ELSE d.glyphEntries[1].file[i]]],
+                 Req, split, splitGlyphs, present) = "dump:per-glyph-file-names-collide-ignoring-case"
+   /\ WellFormed([d EXCEPT !.glyphEntries = Tail(@)], Req, split, splitGlyphs, present) = "dump:glyf-file-does-not-list-every-glyph-once"
+(* the names handed out are also distinct as written, legal and bounded (Filenames' own clauses, here for pairs) *)
+NamesSane == (~Buggy /\ splitGlyphs) => LET fl == Files IN FN!CaseUnique(CX, fl) /\ FN!Legal(CX, fl)
 TextLaws == /\ TextNorm(<<32, 97, 13, 10, 98, 9>>) = <<97, 10, 98>> /\ AttrNorm(<<97, 13, 98, 10>>) = <<97, 32, 98, 32>>
             /\ TextNorm(<<>>) = <<>> /\ TextNorm(<<13>>) = <<>>
+            /\ Fold(<<65, 97, 90, 91, 201, 215, 233, 42>>) = <<97, 97, 122, 91, 233, 215, 233, 42>>
 ====
